@@ -241,7 +241,47 @@ unhashable_instance = UnhashableCallable()
 def clash_branch(flag, *args, **kwargs):
     if flag: return cw2(*args, **kwargs)
     else: return cw1(flag, *args, **kwargs)
+# methods without a named instance parameter; an unhashable instance; a class whose INSTANCES forward; two self-calls with more arguments
+def kwonly_target(*, a): return a
+class StarMethods:
+    def star_only(*args, **kwargs): return kwonly_target(*args, **kwargs)
+    def star_only_ok(*args, **kwargs): return two_params(*args, **kwargs)
+    def no_positional(*, k=1, **kwargs): return k
+star_only_bound = StarMethods().star_only
+star_only_ok_bound = StarMethods().star_only_ok
+no_positional_bound = StarMethods().no_positional
+class PlainUnhashable:
+    __hash__ = None
+    def __call__(self, a, b): return a, b
+plain_unhashable_instance = PlainUnhashable()
+class CtorAndCall:
+    def __init__(self, x): self.x = x
+    def __call__(self, *args, **kwargs): return two_params(*args, **kwargs)
+ctor_and_call_instance = CtorAndCall(1)
+def self_call_twice(*a, **k):
+    self_call_twice(1, *a, **k)
+    return self_call_twice(2, *a, **k)
+def self_call_thrice(*a, **k): return [self_call_thrice(x, *a, **k) for x in (1, 2)] + [self_call_thrice(*a, z=1, **k)]
 '''
+
+
+class _Timeout(BaseException):
+    pass
+
+
+def with_timeout(thunk, seconds=20):
+    """a retrieval that does not come back is a retrieval that failed: reported as raising Timeout"""
+    import signal
+
+    def on_alarm(signum, frame):
+        raise _Timeout()
+    old = signal.signal(signal.SIGALRM, on_alarm)
+    signal.alarm(seconds)
+    try:
+        return thunk()
+    finally:
+        signal.alarm(0)
+        signal.signal(signal.SIGALRM, old)
 
 
 def adversarial_objects():
@@ -266,9 +306,9 @@ def outcome(thunk, declared=False):
     try:
         with warnings.catch_warnings():
             warnings.simplefilter('ignore')
-            r = thunk()
+            r = with_timeout(thunk)
     except BaseException as e:  # noqa
-        return {'tag': 'raise', 'exc': type(e).__name__, 'ps': [], 'upgraded': False, 'declared': declared}
+        return {'tag': 'raise', 'exc': type(e).__name__.lstrip('_'), 'ps': [], 'upgraded': False, 'declared': declared}
     try:
         ps = absig.project_params(r)
     except Exception:  # noqa
@@ -320,7 +360,17 @@ def obj_event(tid, name, obj, sphinx=True):
         except BaseException as e:  # noqa
             sph = {'tag': 'raise', 'got': type(e).__name__, 'expected': '-'}
     return {'tid': tid, 'op': 'obj', 'name': name, 'insp': insp, 'routes': routes, 'plainfn': plainfn, 'own': own, 'small': nnames <= 7, 'sphinx': sph,
-            'case': {'name': name}}
+            'case': {'name': name, 'unhashable': unhashable(obj), 'excs': sorted({r['exc'] for r in routes if r['tag'] == 'raise'})}}
+
+
+def unhashable(obj):
+    try:
+        hash(obj)
+    except TypeError:
+        return True
+    except BaseException:  # noqa
+        return False
+    return False
 
 
 def corpus_gen(mods, seed, frac):
@@ -347,6 +397,9 @@ def describe(e, case):
 
 
 def classify(tid, clause, case):
+    # known finding: provenance maps are dictionaries keyed by the callable, which an unhashable callable instance cannot be
+    if clause == 'C07_RaisesWhereInspectSucceeds' and case.get('unhashable') and case.get('excs') == ['TypeError']:
+        return 'unhashable-callable-instance'
     return clause
 
 
